@@ -6,6 +6,7 @@ import KrillModel.Ca.LemmasDomain
 import KrillModel.Ca.LemmasReach
 import KrillModel.Ca.LemmasRoll
 import KrillModel.Ca.LemmasKeySync
+import KrillModel.Ca.LemmasActivate
 namespace KM.Props.C04
 open KM KM.CaK KM.AMap KM.Generated.ApplyDomain
 
@@ -166,6 +167,214 @@ theorem single_signer {s : Sys} (h : Reachable s) : s.singleSigner = true := by
     cases hg : get s.ca.classes r with
     | none => rw [hg] at this; simp [ClsInv] at this
     | some rc => rw [hg] at this; exact this.2.2 ok rfl
+
+/-! ## Activation moves every product in one command -/
+
+/-- The command that stores `KeyRollActivated` for a class (new key `n`, current key `c`, both
+without open request) leaves the published object sets of that class as follows – **in that
+one command**: the set of the old key `c` publishes nothing (manifest and CRL only); the set of
+the new key `n`, which published nothing before, publishes a product name exactly when the
+class holds that product (ROA, ASPA, router certificate) and a child certificate name exactly
+when the key was issued and has no `suspended` entry.  Nothing the class holds is lost, nothing
+is published twice. -/
+theorem activation_moves_everything {s s' : Sys} (h : Reachable s) {na : Int} {evs : List Ev}
+    (hex : s.exec (.keyrollActivate na) = .stored evs s') {r : Rcn} {rc : Rc} {n c : CertKey}
+    (hg : get s.ca.classes r = some rc) (hk : rc.keys = .rollNew n c) :
+    ∃ cs' os', get s'.objs r = some (.old cs' os') ∧ os'.published = [] ∧ os'.key = c.id ∧ cs'.key = n.id ∧
+      ∀ nm : OName, (get cs'.published nm).isSome =
+        (match nm with
+          | .prod k id => (get rc.products (k, id)).isSome
+          | .cer key => (get rc.certs.issued key).isSome && !(get rc.certs.suspended key).isSome) := by
+  have hinv := reachable_inv h
+  have hnd := hinv.core.nodup
+  -- the object class before: staging, publishing nothing
+  have hcls := hinv.core.cls r
+  rw [hg] at hcls
+  obtain ⟨hm, _, hside⟩ := hcls
+  rw [hk] at hm
+  obtain ⟨ss, cs, hgo, hss, _, hcsk, _⟩ := ksMirror_rollNew.mp hm
+  have hemp : ss.published = [] := by
+    have := hside _ hgo
+    simpa [ObjKeys.sideSetsEmpty] using this
+  obtain ⟨hp, hr⟩ := exec_stored_iff.mp hex
+  obtain ⟨ca', o'⟩ := s'
+  obtain ⟨_, ho⟩ := runEvs_some_iff.mp hr
+  simp only [Ca.process] at hp
+  rw [activateLoop_eq] at hp
+  have honcls : ∀ r rc evs, activateClass r rc na = .ok evs → ∀ e ∈ evs, e.onClass r = true :=
+    fun r rc evs h => (activateClass_ready na r rc evs h).1
+  obtain ⟨l1, l2, A, a0, B, hl, hA, ha0, hB, hevs⟩ := forClasses_split hp (mem_of_get hg)
+  -- names of the other classes differ from `r`
+  have hnd' : (keys (l1 ++ (r, rc) :: l2)).Nodup := hl ▸ hnd
+  simp only [keys, List.map_append, List.map_cons] at hnd'
+  have hr1 : r ∉ keys l1 := by
+    intro hm1
+    have := List.nodup_append.mp hnd'
+    exact this.2.2 r hm1 r (List.mem_cons_self ..) rfl
+  have hr2 : r ∉ keys l2 := by
+    have := (List.nodup_append.mp hnd').2.1
+    exact (List.nodup_cons.mp this).1
+  subst hevs
+  rw [stepAll_append] at ho
+  cases ho1 : s.objs.stepAll A with
+  | error e => simp [ho1] at ho
+  | ok o1 =>
+    simp only [ho1] at ho
+    rw [stepAll_append] at ho
+    cases ho2 : o1.stepAll a0 with
+    | error e => simp [ho2] at ho
+    | ok o2 =>
+      simp only [ho2] at ho
+      have hg1 : get o1 r = some (.staging ss cs) := by
+        rw [stepAll_frame (forClasses_other honcls hA hr1) ho1]; exact hgo
+      -- the chunk of `r`
+      have hnc : ∀ e ∈ a0, e.onClass r = true ∧ e.notCreate = true := by
+        intro e he
+        refine ⟨honcls r rc a0 ha0 e he, ?_⟩
+        have hpay := activateClass_ready na r rc a0 ha0
+        -- every event of the chunk is `activated` or a payload event
+        unfold activateClass at ha0
+        have hn : rc.keys.newKey = some n := by rw [hk]; rfl
+        simp only [hn] at ha0
+        cases hka : rc.keys.keyrollActivate with
+        | error e => simp [hka] at ha0
+        | ok kevs =>
+          simp only [hka] at ha0
+          cases hac : rc.certs.activateKey n.cert na with
+          | error e => simp [hac] at ha0
+          | ok upd =>
+            simp only [hac, Except.ok.injEq] at ha0; subst ha0
+            have hkevs : kevs = [.activated] := by
+              rw [hk] at hka
+              simp only [KeyState.keyrollActivate] at hka
+              split at hka <;> cases hka
+              rfl
+            subst hkevs
+            simp only [List.map_cons, List.map_nil, List.cons_append, List.nil_append, List.mem_cons,
+              List.mem_append] at he
+            rcases he with rfl | ((he | he) | he) | he
+            · rfl
+            · obtain ⟨u, rfl⟩ := renewal_products r rc .roa e he; rfl
+            · obtain ⟨u, rfl⟩ := renewal_products r rc .aspa e he; rfl
+            · split at he
+              · cases he
+              · simp only [List.mem_singleton] at he; subst he; rfl
+            · obtain ⟨u, rfl⟩ := renewal_products r rc .bgpsec e he; rfl
+      obtain ⟨ok', happ, hg2, _⟩ := stepAll_of_class hnc hg1 ho2
+      obtain ⟨cs', happ', hkey, _, hret, hnames⟩ := activate_objs hk ha0 ss cs hemp
+      rw [happ'] at happ
+      simp only [Except.ok.injEq] at happ; subst happ
+      refine ⟨cs', cs.retire, ?_, hret, hcsk, hkey.trans hss, hnames⟩
+      simp only
+      rw [stepAll_frame (forClasses_other honcls hB hr2) ho]; exact hg2
+
+/-
+Full statement (`no_loss_no_dup`): for every reachable state, the set of product names the
+current key publishes is the same before and after the activation command.  False on this tree
+whenever a child was unsuspended before (F-C02-1): see `activation_loses_stale_child` below.
+
+Proved (`no_loss_no_dup_partial`): the statement under the two hypotheses that make it a
+statement about the activation command alone – before the command the current set publishes
+what the class holds (the `objects_mirror` relation of C01) and no key is both issued and
+suspended.  Missing: `objects_mirror` as an invariant of histories without unsuspension is not
+proved here.
+-/
+
+/-- If before activation the current set publishes exactly what the class holds and no issued
+key has a (stale) suspended entry, the new key's set publishes exactly the same names after the
+activation command, and the old key's set none. -/
+theorem no_loss_no_dup_partial {s s' : Sys} (h : Reachable s) {na : Int} {evs : List Ev}
+    (hex : s.exec (.keyrollActivate na) = .stored evs s') {r : Rcn} {rc : Rc} {n c : CertKey}
+    (hg : get s.ca.classes r = some rc) (hk : rc.keys = .rollNew n c)
+    {ss cs : ObjSet} (hgo : get s.objs r = some (.staging ss cs))
+    (hom : ∀ nm : OName, (get cs.published nm).isSome =
+      (match nm with
+        | .prod k id => (get rc.products (k, id)).isSome
+        | .cer key => (get rc.certs.issued key).isSome))
+    (hns : rc.noStale = true) :
+    ∃ cs' os', get s'.objs r = some (.old cs' os') ∧ os'.published = [] ∧
+      ∀ nm : OName, (get cs'.published nm).isSome = (get cs.published nm).isSome := by
+  obtain ⟨cs', os', h1, h2, _, _, h5⟩ := activation_moves_everything h hex hg hk
+  refine ⟨cs', os', h1, h2, ?_⟩
+  intro nm
+  rw [h5 nm, hom nm]
+  cases nm with
+  | prod k id => rfl
+  | cer key =>
+    simp only
+    cases hi : get rc.certs.issued key with
+    | none => rfl
+    | some cc =>
+      simp only [Rc.noStale, List.all_eq_true] at hns
+      have := hns (key, cc) (mem_of_get hi)
+      simp only [Bool.not_eq_true', Option.isSome_eq_false_iff, Option.isNone_iff_eq_none] at this
+      simp [this]
+
+/-- F-C02-1 seen from the roll: suspend → unsuspend → roll; at activation the active child's
+certificate is dropped (it is re-issued as *suspended*). -/
+def staleRoll : List Cmd :=
+  [ .repoUpdate [], .addParent 9,
+    .updateEntitlements 9 [⟨0, [1, 2], 100, []⟩] 0 [4],
+    .updateRcvdCert 0 4 { res := [1, 2], na := 100 } 50 [],
+    .childAdd 7 [1],
+    .childCertify 7 0 6 none 60,
+    .config [(0, ⟨.roa, [(31, 310)], []⟩)],
+    .childSuspend 7, .childUnsuspend 7 10 61,
+    .keyrollInit [(0, 5)],
+    .updateRcvdCert 0 5 { res := [1, 2], na := 100 } 62 [] ]
+
+theorem activation_loses_stale_child :
+    ∃ s : Sys, Reachable s ∧
+      (get s.objs 0).map (fun ok => keys ok.currentSet.published) = some [.cer 6, .prod .roa 31] ∧
+      (get (s.next (.keyrollActivate 63)).objs 0).map (fun ok => keys ok.currentSet.published) =
+        some [.prod .roa 31] ∧
+      (get (s.next (.keyrollActivate 63)).ca.children 7).map (·.active) = some true :=
+  ⟨Sys.run {} staleRoll, reachable_run .init _, by decide, by decide, by decide⟩
+
+/-- After the command that stores `KeyRollFinished` the old key's set is gone: the class has one
+object set, the current one. -/
+theorem finish_removes_old_set {s s' : Sys} (h : Reachable s) {r : Rcn} {evs : List Ev}
+    (hex : s.exec (.keyrollFinish r) = .stored evs s') :
+    ∃ cs, get s'.objs r = some (.current cs) := by
+  have hs' : Reachable s' := by
+    have := Reachable.step (.keyrollFinish r) h
+    unfold Sys.next at this; rw [hex] at this; exact this
+  obtain ⟨hp, hr⟩ := exec_stored_iff.mp hex
+  obtain ⟨ca', o'⟩ := s'
+  obtain ⟨ha, _⟩ := runEvs_some_iff.mp hr
+  simp only [Ca.process] at hp
+  cases hg : get s.ca.classes r with
+  | none => simp [hg] at hp
+  | some rc =>
+    simp only [hg] at hp
+    cases hf : rc.keys.keyrollFinish with
+    | error e => simp [hf] at hp
+    | ok e =>
+      simp only [hf, Except.ok.injEq] at hp; subst hp
+      cases hk : rc.keys with
+      | rollOld c o =>
+        rw [hk] at hf; simp only [KeyState.keyrollFinish, Except.ok.injEq] at hf; subst hf
+        simp only [Ca.applyAll, Ca.apply, Ca.withClass, hg, hk, KeyState.apply, KeyState.applyFinished,
+          Option.map_some, Option.bind_some, Option.some.injEq] at ha
+        subst ha
+        have hcls := (reachable_inv hs').core.cls r
+        simp only [get_set_self] at hcls
+        obtain ⟨hm, _, _⟩ := hcls
+        obtain ⟨cs, hcs, _⟩ := ksMirror_active.mp hm
+        exact ⟨cs, hcs⟩
+      | pending _ => rw [hk] at hf; simp [KeyState.keyrollFinish] at hf
+      | active _ => rw [hk] at hf; simp [KeyState.keyrollFinish] at hf
+      | rollPending _ _ => rw [hk] at hf; simp [KeyState.keyrollFinish] at hf
+      | rollNew _ _ => rw [hk] at hf; simp [KeyState.keyrollFinish] at hf
+
+/-- Non-vacuity of `activation_moves_everything` / `no_loss_no_dup_partial`: a roll with a ROA
+and a child certificate. -/
+example :
+    let s := Sys.run {} (staleRoll.take 7 ++ [.keyrollInit [(0, 5)], .updateRcvdCert 0 5 { res := [1, 2], na := 100 } 62 []])
+    (get s.ca.classes 0).map (·.keys.variant) = some .rollNew ∧
+    (get s.objs 0).map (fun ok => keys ok.currentSet.published) = some [.prod .roa 31, .cer 6] ∧
+    (get (s.next (.keyrollActivate 63)).objs 0).map (fun ok => (keys ok.currentSet.published, ok.sideSetsEmpty)) =
+      some ([.cer 6, .prod .roa 31], true) := by decide
 
 /-! ## A second roll request is a no-op -/
 
